@@ -23,6 +23,9 @@ pub const DEF: PropDef = PropDef {
 pub struct Case {
     pub chain: ChainSpec,
     pub layouts: Vec<LayoutSpec>,
+    /// RLIMIT_NOFILE of every run of the case (files that no record names must not cost descriptors)
+    #[serde(default)]
+    pub nofile: Option<u64>,
 }
 
 pub fn chain_cfg(tier: Tier) -> gen::ChainCfg {
@@ -37,7 +40,7 @@ pub fn chain_cfg(tier: Tier) -> gen::ChainCfg {
 }
 
 pub fn strategy(tier: Tier, big_holes: bool) -> BS<Case> {
-    (gen::chain(&chain_cfg(tier)), proptest::collection::vec(layout::layout(tier, false, big_holes), 1..=2)).prop_map(|(chain, layouts)| Case { chain, layouts }).boxed()
+    (gen::chain(&chain_cfg(tier)), proptest::collection::vec(layout::layout(tier, false, big_holes), 1..=2)).prop_map(|(chain, layouts)| Case { chain, layouts, nofile: None }).boxed()
 }
 
 pub fn check(c: &Case) -> Verdict {
@@ -48,6 +51,7 @@ pub fn check(c: &Case) -> Verdict {
     if base > 0 {
         o.start = Some(base);
     }
+    o.nofile = c.nofile;
     // canonical layout
     let mut plan = LayoutSpec::canonical().to_plan(&built);
     let w = infra!(World::create("c03", &mut plan));
@@ -125,6 +129,7 @@ fn boundary_cases() -> Vec<Case> {
     let mk = |base: u64, number: u64, lead: Gap| Case {
         chain: vpmodel::spec::chain_from_scripts(vpmodel::chain::Coin::Bitcoin, &scripts, &[5_000], 1, 1, base, 1_500_000_000),
         layouts: vec![LayoutSpec { files: vec![layout::FileSlot { number, pad: 5 }], lead: vec![lead], ..LayoutSpec::canonical() }],
+        nofile: None,
     };
     let mut v = Vec::new();
     for b in varint_boundaries() {
@@ -143,6 +148,14 @@ fn boundary_cases() -> Vec<Case> {
 
 fn run(eng: &Engine, a: &Args) {
     eng.enumerate("varint-width-boundaries", boundary_cases(), check);
+    // 700 blk files that no record names, next to a chain in two indexed files, under a limit of 64 descriptors: the
+    // result must be that of the plain directory under the same limit
+    let scripts: Vec<Vec<u8>> = (0..6usize).map(|i| vec![0x51 + i as u8, 0x87]).collect();
+    let chain = vpmodel::spec::chain_from_scripts(vpmodel::chain::Coin::Litecoin, &scripts, &[700], 1, 1, 0, 1_500_000_000);
+    let mut crowded = LayoutSpec { files: vec![layout::FileSlot { number: 0, pad: 5 }, layout::FileSlot { number: 1, pad: 5 }], assign: vec![0, 40_000], ..LayoutSpec::canonical() };
+    crowded.extras.unreferenced_many = 700;
+    crowded.extras.rev_files = true;
+    eng.enumerate("many-unreferenced-blk-files", vec![Case { chain, layouts: vec![crowded], nofile: Some(64) }], check);
     // layouts without multi-GiB holes first: a wrong seek then fails fast instead of reading a hole
     let (n1, n2) = if a.tier == Tier::Quick { (200, 100) } else { (2700, 1300) };
     let tier = a.tier;
@@ -152,7 +165,7 @@ fn run(eng: &Engine, a: &Args) {
 
 fn replay(part: &str, case: serde_json::Value) -> Option<Verdict> {
     match part {
-        "layout-vs-canonical" | "layout-vs-canonical-4GiB" | "varint-width-boundaries" => Some(check(&serde_json::from_value(case).ok()?)),
+        "layout-vs-canonical" | "layout-vs-canonical-4GiB" | "varint-width-boundaries" | "many-unreferenced-blk-files" => Some(check(&serde_json::from_value(case).ok()?)),
         _ => None,
     }
 }
